@@ -97,6 +97,21 @@ def run(ctx):
     exprs = enum_exprs(2 if ctx.tier == "thorough" else 1)
     if ctx.tier != "thorough":
         exprs = exprs + rng.sample(enum_exprs(2), 250)
+    # longer expressions (counted repetitions of sequences behind an optional / repeated prefix): automata with a dozen
+    # or more states, where state numbering and subset bookkeeping matter
+    def long_expr():
+        names = ["a", "b", "g", "h"]
+        parts = []
+        if rng.random() < 0.8:
+            parts.append(rng.choice(names) + rng.choice(["*", "?", "+", "{0,2}"]))
+        for _ in range(rng.randint(1, 2)):
+            seq = " ".join(rng.choice(names) + rng.choice(["", "", "", "?", "*"]) for _ in range(rng.randint(1, 3)))
+            cnt = rng.choice(["{1,3}", "{2}", "{3}", "{5}", "{2,4}", "{3,}", "{10}", "+", "{2,}"])
+            parts.append((f"({seq})" if " " in seq or seq[-1] in "?*" else seq) + cnt)
+        if rng.random() < 0.3:
+            parts.append(rng.choice(names) + rng.choice(["", "?", "{7}"]))
+        return " ".join(parts)
+    exprs = exprs + [long_expr() for _ in range(ctx.budget(25, 200))]
     exprs = list(dict.fromkeys(exprs + MALFORMED))
     for e in exprs:
         nodes = {k: dict(v) for k, v in ENUM_NODES.items()}
